@@ -332,6 +332,9 @@ def openBody (cx : NumCtx) (e : Env) (s : State) (deposit mint : Rat) (vk? : Opt
     all liquidity goes to the pending amounts, then everything pending is collected and the emptied position is
     deleted.  Returns what `collect_fee` returns, in token order `(amount0, amount1) = (WETH, oSQTH)`. -/
 def uniRedeem (cx : NumCtx) (e : Env) (s : State) (pos : PosKey) (toUser : Bool) : Res × Rat × Rat :=
+  -- `__remove_liquidity` and `__collect_fee` are @write_func: a closed pool raises before anything is touched
+  if !e.uniOpen then (.fail (.demeter "uni-closed") s, 0, 0)
+  else
   match AList.get? s.positions pos with
   | none => (.fail (.key "position") s, 0, 0)
   | some p =>
@@ -342,20 +345,17 @@ def uniRedeem (cx : NumCtx) (e : Env) (s : State) (pos : PosKey) (toUser : Bool)
     match AList.get? s1.wallet sqOsqthName, AList.get? s1.wallet sqWethName with
     | some bo, some bw =>
       let s2 := s1.record (.uniRemove pos t.2 t.1 p.liquidity 0 bo bw)
-      -- `__collect_fee` is a @write_func
-      if !e.uniOpen then (.fail (.demeter "uni-closed") s2, 0, 0)
-      else
-        let f0 := p1.pending0
-        let f1 := p1.pending1
-        let p2 : UPos := { p1 with pending0 := cx.sub f0 f0, pending1 := cx.sub f1 f1 }
-        let s3 := s2.setPos pos p2
-        let s4 := if toUser then creditW cx (creditW cx s3 sqWethName f0) sqOsqthName f1 else s3
-        match AList.get? s4.wallet sqOsqthName, AList.get? s4.wallet sqWethName with
-        | some bo', some bw' =>
-          let s5 := s4.record (.uniCollect pos f1 f0 bo' bw')
-          let s6 := if p2.pending0 = 0 ∧ p2.pending1 = 0 then { s5 with positions := AList.erase s5.positions pos } else s5
-          (.ok s6, f0, f1)
-        | _, _ => (.fail (.demeter "no-token") s4, 0, 0)
+      let f0 := p1.pending0
+      let f1 := p1.pending1
+      let p2 : UPos := { p1 with pending0 := cx.sub f0 f0, pending1 := cx.sub f1 f1 }
+      let s3 := s2.setPos pos p2
+      let s4 := if toUser then creditW cx (creditW cx s3 sqWethName f0) sqOsqthName f1 else s3
+      match AList.get? s4.wallet sqOsqthName, AList.get? s4.wallet sqWethName with
+      | some bo', some bw' =>
+        let s5 := s4.record (.uniCollect pos f1 f0 bo' bw')
+        let s6 := if p2.pending0 = 0 ∧ p2.pending1 = 0 then { s5 with positions := AList.erase s5.positions pos } else s5
+        (.ok s6, f0, f1)
+      | _, _ => (.fail (.demeter "no-token") s4, 0, 0)
     | _, _ => (.fail (.demeter "no-token") s1, 0, 0)
 
 /-- `_reduce_debt(vault_key, pay_bounty)`; second component = bounty -/
